@@ -107,3 +107,7 @@ def run(ck):
     ck.extra["exhaustive"] = True
     ck.assumptions += ["rustc MIR and const evaluation", "oracles/rfc1951.py transcribes RFC 1951 §3.2.2–3.2.7",
                        "INFLATE_STRICT=false reading (zlib's non-strict): distances are checked against available history only"]
+
+# session 5 (round 9, D24)
+EXPLANATION = EXPLANATION + " " + (
+    'SIB/same-terms-same-threshold: ordering decisions of the decoder over the same linear combination of state fields and working locals (`have + copy > nlen + ndist` in every repeat arm of dispatch and back) decide at one threshold, whatever the arrangement of the terms. PAIR/second-level-bits: the bit count of every saved first-level table entry is part of the exit test of its second-level fetch loop.')
